@@ -10,6 +10,7 @@ pub mod c10;
 pub mod c11;
 pub mod c12;
 pub mod c13;
+pub mod c15;
 
 use crate::harness::Prop;
 
@@ -26,6 +27,7 @@ pub fn by_id(id: &str) -> Option<&'static dyn Prop> {
         "C11" => Some(&c11::C11),
         "C12" => Some(&c12::C12),
         "C13" => Some(&c13::C13),
+        "C15" => Some(&c15::C15),
         _ => None,
     }
 }
